@@ -125,7 +125,22 @@ class Evaluator:
             txt = ' '.join(ast.unparse(e).split())
             if txt in env:
                 return env[txt]
-            return self.deno.get(txt)
+            if txt in self.deno:
+                return self.deno[txt]
+            # a local alias of an object: `part = self.failed_part; part.line_offset`
+            root = e
+            while isinstance(root, (ast.Attribute, ast.Subscript)):
+                root = root.value
+            if isinstance(root, ast.Call):
+                root = root.func
+                while isinstance(root, ast.Attribute):
+                    root = root.value
+            if isinstance(root, ast.Name) and ('@alias:' + root.id) in env:
+                txt2 = env['@alias:' + root.id] + txt[len(root.id):] if txt.startswith(root.id) else txt
+                if txt2 in env:
+                    return env[txt2]
+                return self.deno.get(txt2)
+            return None
         return None
 
     def step(self, node, env):
@@ -161,6 +176,12 @@ class Evaluator:
         if isinstance(target, ast.Name):
             # a declared input bound from a non-affine source (`tb_lineno = int(text)`) keeps its declared denotation
             env[target.id] = val if val is not None else self.deno.get(target.id)
+            env.pop('@alias:' + target.id, None)
+            if val is None and isinstance(value_expr, (ast.Attribute, ast.Name)) and not isinstance(value_expr, ast.Constant):
+                txt = ' '.join(ast.unparse(value_expr).split())
+                if isinstance(value_expr, ast.Name) and ('@alias:' + value_expr.id) in env:
+                    txt = env['@alias:' + value_expr.id]
+                env['@alias:' + target.id] = txt
         elif isinstance(target, (ast.Tuple, ast.List)):
             if isinstance(value_expr, (ast.Tuple, ast.List)) and len(value_expr.elts) == len(target.elts):
                 vals = [self.aeval(v, env) for v in value_expr.elts]
